@@ -79,11 +79,11 @@ PROPS["C03"] = dict(
 )
 PROPS["C09"] = dict(
     kani=True,
-    slices=["tour_mod", "formation"],
+    slices=["tour_mod", "formation", "depot_usage"],
     witness_family="tour",
-    level_text="tour level: Verus proves that compute_*_of_nodes (and hence new_computing / every freshly built tour) equal the from-scratch meaning of the five cached figures written from the property text, and that replace_start_depot, replace_end_depot, remove and insert_path keep all five caches exact (delta formulas = recomputation), including tours through the infinitely distant overflow depot; schedule-level aggregates are NOT decided",
+    level_text="tour level: Verus proves that compute_*_of_nodes (and hence new_computing / every freshly built tour) equal the from-scratch meaning of the five cached figures written from the property text, and that replace_start_depot, replace_end_depot, remove and insert_path keep all five caches exact (delta formulas = recomputation), including tours through the infinitely distant overflow depot; schedule level: the depot-usage table stays exact for the updated vehicle and untouched for all others under update_depot_usage (from-scratch meaning: spawned/despawned sets per depot and type), depot_balance / total_depot_balance_violation are the sizes' differences resp. their absolute sum, update_tour_and_costs applies exactly the cost delta; the other schedule aggregates (costs across whole modifications, unserved passengers, maintenance violation) are NOT decided",
     level_note="trusted: as C01 plus A-iter sums (Sum for Distance/Duration folds with +; integer sums do not wrap); Network::bounded magnitudes are a stated precondition",
-    scope="the five per-tour caches under the constructor and all four modifiers",
+    scope="the five per-tour caches under the constructor and all four modifiers; depot-usage bookkeeping of one vehicle update",
     assumptions=A_COMMON + A_ITER + ["Schedule.{costs, unserved_passengers, maintenance_violation, depot_usage} delta updates are not under contract"],
 )
 PROPS["C13"] = dict(
